@@ -43,7 +43,7 @@ def plan(tier, seed, budget):
 
 
 def strategy():
-    return st.tuples(modelgen.models(_cfg()), optcommon.option_tuples(), st.lists(st.integers(0, 2**31 - 1), min_size=2, max_size=2))
+    return st.tuples(optcommon.option_tuples(), modelgen.models(_cfg()))
 
 
 def diff_key(before, after):
@@ -100,7 +100,8 @@ def run_shard(spec):
         return _run_corpus(spec, col)
 
     def body(case):
-        gm, o, seeds = case
+        o, gm = case
+        seeds = gm.seeds()
         if wellformed.check_model(gm.model):
             col.skip("generator_invalid")
             return
@@ -121,7 +122,7 @@ def run_shard(spec):
 
 def _run_corpus(spec, col):
     def body(case):
-        lifted, o = case
+        o, lifted = case
         if lifted is None:
             col.skip("corpus_case_unusable")
             return
@@ -137,7 +138,7 @@ def _run_corpus(spec, col):
         for bucket, detail in verdicts:
             col.violation(bucket, detail, case_json(model, o, [feeds], expected, origin), size=len(model.graph.node))
 
-    drive(st.tuples(corpus.lifted_cases(), optcommon.option_tuples()), body, spec["n"], spec["seed"])
+    drive(st.tuples(optcommon.option_tuples(), corpus.lifted_cases()), body, spec["n"], spec["seed"])
     return col.result()
 
 
